@@ -24,12 +24,14 @@ Fixpoint new_plans (fid folder off : Z) (ms : list new_member) : list iplan :=
       let e := m_file m in
       match m_stream m with
       | None =>
-          mkIPlan (e_name e) (if attr_is_dir (e_attr e) then 2 else 1) (-1) 0 0 None
-                  (Spec.flat_opt (e_mtime e)) (Spec.flat_opt (e_attr e)) fid
+          (* an entry without data added by a session has no "emptyfile" key (its EmptyFile bit is written as
+             False): a directory, whatever its attributes *)
+          mkIPlan (e_name e) 2 (-1) 0 0 None
+                  (Spec.flat_opt (e_mtime e)) (Spec.flat_opt (e_attr e)) fid true false
           :: new_plans (fid + 1) folder off r
       | Some (sz, c) =>
           mkIPlan (e_name e) (if attr_is_dir (e_attr e) then 2 else 0) folder off sz (Some c)
-                  (Spec.flat_opt (e_mtime e)) (Spec.flat_opt (e_attr e)) fid
+                  (Spec.flat_opt (e_mtime e)) (Spec.flat_opt (e_attr e)) fid false false
           :: new_plans (fid + 1) folder (off + sz) r
       end
   end.
@@ -221,32 +223,38 @@ Definition Inv (fo os inp : Z) : Prop :=
   0 <= fo <= zlen nums /\ 0 <= inp /\ os = psum nums fo + inp /\
   (0 < inp -> exists n, nthZ nums fo = Ok n /\ inp < n).
 
-Lemma ext_run : forall files multi fid fo os inp fstats ps,
+(* efl: one EmptyFile bit per entry of `files` without data; tef: the bits of the entries that follow *)
+Lemma ext_run : forall files efl multi fid fo os inp fstats ps,
+  length efl = nempty files ->
   Inv fo os inp ->
-  assign_loop multi files fid nums sizes dd dg fo os inp fstats (zlen nums) = Ok ps ->
+  assign_loop multi files efl fid nums sizes dd dg fo os inp fstats (zlen nums) = Ok ps ->
   exists fo' inp' fstats',
     Inv fo' (os + count_data files) inp' /\
     (forall k, zlen nums <= k -> flook fstats k = None -> flook fstats' k = None) /\
-    forall g, assign_loop multi (files ++ g) fid (nums ++ tn) (sizes ++ tsz) (dd ++ tdd) (dg ++ tdg)
+    forall g tef, assign_loop multi (files ++ g) (efl ++ tef) fid (nums ++ tn) (sizes ++ tsz) (dd ++ tdd) (dg ++ tdg)
                           fo os inp fstats (zlen nums + 1) =
-              do qs <- assign_loop multi g (fid + zlen files) (nums ++ tn) (sizes ++ tsz) (dd ++ tdd) (dg ++ tdg)
+              do qs <- assign_loop multi g tef (fid + zlen files) (nums ++ tn) (sizes ++ tsz) (dd ++ tdd) (dg ++ tdg)
                                    fo' (os + count_data files) inp' fstats' (zlen nums + 1);
               Ok (ps ++ qs).
 Proof.
-  induction files as [|e r IH]; intros multi fid fo os inp fstats ps HI H.
+  induction files as [|e r IH]; intros efl multi fid fo os inp fstats ps HE HI H.
   - simpl in H. injection H as <-. exists fo, inp, fstats.
     change (count_data []) with 0. change (zlen (@nil fileent)) with 0. rewrite !Z.add_0_r.
-    split; [exact HI|]. split; [auto|]. intros g. simpl app.
-    destruct (assign_loop multi g fid _ _ _ _ fo os inp fstats _); reflexivity.
+    split; [exact HI|]. split; [auto|]. intros g tef. simpl app.
+    destruct efl; [|discriminate HE]. simpl app.
+    destruct (assign_loop multi g tef fid _ _ _ _ fo os inp fstats _); reflexivity.
   - rewrite assign_loop_cons in H. cbn zeta in H. rewrite count_data_cons, AssignProofs.zlen_cons.
+    rewrite nempty_cons in HE.
     destruct (e_emptystream e) eqn:Ee.
-    + bind_inv H rest Hrest. injection H as <-.
-      destruct (IH multi (fid + 1) fo os inp fstats rest HI Hrest) as [fo' [inp' [fstats' [HI' [HF HG]]]]].
+    + destruct efl as [|b efl]; [discriminate HE|]. simpl in HE. injection HE as HE. cbn [hd tl] in H.
+      bind_inv H rest Hrest. injection H as <-.
+      destruct (IH efl multi (fid + 1) fo os inp fstats rest HE HI Hrest) as [fo' [inp' [fstats' [HI' [HF HG]]]]].
       exists fo', inp', fstats'. rewrite Z.add_0_l. split; [exact HI'|]. split; [exact HF|].
-      intros g. change ((e :: r) ++ g) with (e :: (r ++ g)). rewrite assign_loop_cons. cbn zeta. rewrite Ee.
+      intros g tef. change ((e :: r) ++ g) with (e :: (r ++ g)). rewrite assign_loop_cons. cbn zeta. rewrite Ee.
+      change ((b :: efl) ++ tef) with (b :: (efl ++ tef)). cbn [hd tl].
       rewrite HG. replace (fid + (1 + zlen r)) with (fid + 1 + zlen r) by lia.
-      destruct (assign_loop multi g _ _ _ _ _ fo' _ inp' fstats' _); reflexivity.
-    + fold (cur_folder nums fo inp) in H.
+      destruct (assign_loop multi g tef _ _ _ _ _ fo' _ inp' fstats' _); reflexivity.
+    + simpl in HE. fold (cur_folder nums fo inp) in H.
       destruct HI as [Hfo [Hinp [Hos Hin]]].
       pose proof (skip_zero_ge nums (length nums) fo) as Hge.
       assert (Hcf : fo <= cur_folder nums fo inp /\ psum nums (cur_folder nums fo inp) = psum nums fo /\
@@ -284,26 +292,26 @@ Proof.
           { destruct (inp =? 0) eqn:Ei; [lia|]. rewrite (Hsame eq_refl) in Hn.
             destruct (Hin ltac:(lia)) as [n' [Hn' Hlt]]. fold c in Hn'. rewrite Hn in Hn'. injection Hn' as <-. lia. }
           lia. }
-        destruct (IH multi (fid + 1) (c + 1) (os + 1) 0 fstats1 rest HI1 Hrest) as [fo' [inp' [fstats' [HI' [HF HG]]]]].
+        destruct (IH efl multi (fid + 1) (c + 1) (os + 1) 0 fstats1 rest HE HI1 Hrest) as [fo' [inp' [fstats' [HI' [HF HG]]]]].
         exists fo', inp', fstats'. replace (os + (1 + count_data r)) with (os + 1 + count_data r) by lia.
         split; [exact HI'|]. split; [intros k Hk Hk0; apply HF; [exact Hk|apply HU; assumption]|].
-        intros g. change ((e :: r) ++ g) with (e :: (r ++ g)). rewrite assign_loop_cons. cbn zeta. rewrite Ee.
+        intros g tef. change ((e :: r) ++ g) with (e :: (r ++ g)). rewrite assign_loop_cons. cbn zeta. rewrite Ee.
         fold (cur_folder (nums ++ tn) fo inp). rewrite Hcur'.
         replace ((c <? 0) || (zlen nums + 1 <=? c)) with false by lia.
         rewrite (nthZ_app_l _ _ _ _ Hn), (nthZ_app_l _ _ _ _ Hsize), (nthZ_app_l _ _ _ _ Hd), (nthZ_app_l _ _ _ _ Hg).
         cbn [bind]. rewrite EU, En, HG. replace (fid + (1 + zlen r)) with (fid + 1 + zlen r) by lia.
-        destruct (assign_loop multi g _ _ _ _ _ fo' _ inp' fstats' _); reflexivity.
+        destruct (assign_loop multi g tef _ _ _ _ _ fo' _ inp' fstats' _); reflexivity.
       * assert (HI1 : Inv c (os + 1) (inp + 1)).
         { unfold Inv. split; [lia|]. split; [lia|]. split; [lia|]. intros _. exists n. split; [exact Hn|lia]. }
-        destruct (IH multi (fid + 1) c (os + 1) (inp + 1) fstats1 rest HI1 Hrest) as [fo' [inp' [fstats' [HI' [HF HG]]]]].
+        destruct (IH efl multi (fid + 1) c (os + 1) (inp + 1) fstats1 rest HE HI1 Hrest) as [fo' [inp' [fstats' [HI' [HF HG]]]]].
         exists fo', inp', fstats'. replace (os + (1 + count_data r)) with (os + 1 + count_data r) by lia.
         split; [exact HI'|]. split; [intros k Hk Hk0; apply HF; [exact Hk|apply HU; assumption]|].
-        intros g. change ((e :: r) ++ g) with (e :: (r ++ g)). rewrite assign_loop_cons. cbn zeta. rewrite Ee.
+        intros g tef. change ((e :: r) ++ g) with (e :: (r ++ g)). rewrite assign_loop_cons. cbn zeta. rewrite Ee.
         fold (cur_folder (nums ++ tn) fo inp). rewrite Hcur'.
         replace ((c <? 0) || (zlen nums + 1 <=? c)) with false by lia.
         rewrite (nthZ_app_l _ _ _ _ Hn), (nthZ_app_l _ _ _ _ Hsize), (nthZ_app_l _ _ _ _ Hd), (nthZ_app_l _ _ _ _ Hg).
         cbn [bind]. rewrite EU, En, HG. replace (fid + (1 + zlen r)) with (fid + 1 + zlen r) by lia.
-        destruct (assign_loop multi g _ _ _ _ _ fo' _ inp' fstats' _); reflexivity.
+        destruct (assign_loop multi g tef _ _ _ _ _ fo' _ inp' fstats' _); reflexivity.
 Qed.
 End Extend.
 
@@ -326,15 +334,21 @@ Proof.
 Qed.
 
 (* members without data never touch the cursor *)
+(* the EmptyFile bits of the entries a session adds: none has the key, all read as False *)
+Definition new_ef (ms : list new_member) : list bool :=
+  flat_map (fun m => if e_emptystream (m_file m) then [false] else []) ms.
+Lemma new_ef_cons m r : new_ef (m :: r) = (if e_emptystream (m_file m) then [false] else []) ++ new_ef r.
+Proof. reflexivity. Qed.
+
 Lemma new_run_empty multi nums sizes dd dg nf : forall ms fid fo os inp fstats F off,
   forallb member_ok ms = true -> new_sizes ms = [] ->
-  assign_loop multi (map m_file ms) fid nums sizes dd dg fo os inp fstats nf = Ok (new_plans fid F off ms).
+  assign_loop multi (map m_file ms) (new_ef ms) fid nums sizes dd dg fo os inp fstats nf = Ok (new_plans fid F off ms).
 Proof.
   induction ms as [|m r IH]; intros fid fo os inp fstats F off Hok Hs; [reflexivity|].
   simpl in Hok. apply andb_prop in Hok as [Hm Hr]. rewrite new_sizes_cons in Hs.
   destruct (m_stream m) as [[sz c]|] eqn:Es; [discriminate Hs|]. simpl in Hs.
-  change (map m_file (m :: r)) with (m_file m :: map m_file r). rewrite assign_loop_cons. cbn zeta.
-  rewrite (member_ok_nodata m Hm Es). rewrite (IH (fid + 1) fo os inp fstats F off Hr Hs). cbn [bind].
+  change (map m_file (m :: r)) with (m_file m :: map m_file r). rewrite assign_loop_cons, new_ef_cons. cbn zeta.
+  rewrite (member_ok_nodata m Hm Es). cbn [app hd tl]. rewrite (IH (fid + 1) fo os inp fstats F off Hr Hs). cbn [bind].
   simpl new_plans. rewrite Es. reflexivity.
 Qed.
 
@@ -351,7 +365,7 @@ Lemma new_run : forall ms pre_sz pre_dd pre_dg fid inp fo fstats off,
   (if inp =? 0
    then 0 <= fo <= N /\ (forall j, fo <= j < N -> nthZ nums j = Ok 0) /\ flook fstats N = None /\ off = 0
    else fo = N /\ exists first, flook fstats N = Some (mkFstat first inp off)) ->
-  assign_loop multi (map m_file ms) fid
+  assign_loop multi (map m_file ms) (new_ef ms) fid
               (nums ++ [inp + zlen (new_sizes ms)])
               (sizes ++ pre_sz ++ new_sizes ms)
               (dd ++ pre_dd ++ repeat true (length (new_sizes ms)))
@@ -361,10 +375,10 @@ Lemma new_run : forall ms pre_sz pre_dd pre_dg fid inp fo fstats off,
 Proof.
   induction ms as [|m r IH]; intros pre_sz pre_dd pre_dg fid inp fo fstats off H1 H2 H3 Hok Hst; [reflexivity|].
   simpl in Hok. apply andb_prop in Hok as [Hm Hr].
-  change (map m_file (m :: r)) with (m_file m :: map m_file r). rewrite assign_loop_cons. cbn zeta.
+  change (map m_file (m :: r)) with (m_file m :: map m_file r). rewrite assign_loop_cons, new_ef_cons. cbn zeta.
   rewrite new_sizes_cons, new_crcs_cons. simpl new_plans.
   destruct (m_stream m) as [[sz c]|] eqn:Es.
-  - rewrite (member_ok_data m sz c Hm Es).
+  - rewrite (member_ok_data m sz c Hm Es). change ([] ++ new_ef r) with (new_ef r).
     set (numsX := nums ++ [inp + zlen ([sz] ++ new_sizes r)]).
     assert (Hinp : 0 <= inp) by (rewrite <- H1; apply zlen_nonneg).
     assert (Hcur : (if inp =? 0 then skip_zero (length numsX) numsX fo else fo) = N).
@@ -413,7 +427,7 @@ Proof.
       replace (inp + 1 + zlen (new_sizes r)) with (inp + (1 + zlen (new_sizes r))) in IHr by lia.
       replace (zlen sizes + (inp + 1)) with (zlen sizes + inp + 1) in IHr by lia.
       cbn [app] in IHr |- *. rewrite IHr. cbn [bind]. rewrite Hoff. reflexivity.
-  - rewrite (member_ok_nodata m Hm Es). cbn [app].
+  - rewrite (member_ok_nodata m Hm Es). cbn [app hd tl].
     rewrite (IH pre_sz pre_dd pre_dg (fid + 1) inp fo fstats off H1 H2 H3 Hr Hst). reflexivity.
 Qed.
 End NewRun.
@@ -424,8 +438,8 @@ End NewRun.
 Lemma impl_plans_streams p fs s fl ef :
   impl_plans (mkHeader (Some (mkStreams (Some p) (Some fs) (Some s))) (Some fl) ef) =
   do sizes <- (match s_sizes s with Some sz => Ok sz | None => dflt_sizes fs (s_nums s) end);
-  assign_loop (negb (zlen fs =? 1)) fl 0 (s_nums s) sizes (Header.s_digestsdefined s) (Header.s_digests s) 0 0 0 [] (zlen fs).
-Proof. unfold impl_plans. cbn [h_files h_streams si_folders si_pack si_sub]. destruct (s_sizes s); reflexivity. Qed.
+  assign_loop (negb (zlen fs =? 1)) fl ef 0 (s_nums s) sizes (Header.s_digestsdefined s) (Header.s_digests s) 0 0 0 [] (zlen fs).
+Proof. unfold impl_plans. cbn [h_files h_streams h_emptyfiles si_folders si_pack si_sub]. destruct (s_sizes s); reflexivity. Qed.
 
 Lemma dflt_sizes_length : forall fs ns l, length fs = length ns -> forallb (fun n => 0 <=? n) ns = true ->
   dflt_sizes fs ns = Ok l -> zlen l = sumZ ns.
@@ -450,37 +464,32 @@ Proof.
     assert (a = v) by lia. subst a. cbn [bind]. rewrite (IH ns t Ha Ht). reflexivity.
 Qed.
 
-Lemma assign_loop_multi_irrel m1 m2 : forall files fid nums sizes dd dg fo os inp fstats nf,
-  assign_loop m1 files fid nums sizes dd dg fo os inp fstats nf =
-  assign_loop m2 files fid nums sizes dd dg fo os inp fstats nf.
+Lemma assign_loop_multi_irrel m1 m2 : forall files efl fid nums sizes dd dg fo os inp fstats nf,
+  assign_loop m1 files efl fid nums sizes dd dg fo os inp fstats nf =
+  assign_loop m2 files efl fid nums sizes dd dg fo os inp fstats nf.
 Proof.
   induction files as [|e r IH]; intros; [reflexivity|]. rewrite !assign_loop_cons. cbn zeta.
   destruct (e_emptystream e).
-  - rewrite (IH (fid + 1)). reflexivity.
+  - rewrite (IH (tl efl) (fid + 1)). reflexivity.
   - destruct (_ || _); [reflexivity|].
     destruct (nthZ nums _) as [n|]; [|reflexivity]. cbn [bind].
     destruct (nthZ sizes os) as [size|]; [|reflexivity]. cbn [bind].
     destruct (nthZ dd os) as [d|]; [|reflexivity]. cbn [bind].
     destruct (nthZ dg os) as [g|]; [|reflexivity]. cbn [bind].
-    destruct (upd_fstat _ _ _ _) as [f1 old]. destruct (n <=? inp + 1); rewrite (IH (fid + 1)); reflexivity.
+    destruct (upd_fstat _ _ _ _) as [f1 old]. destruct (n <=? inp + 1); rewrite (IH efl (fid + 1)); reflexivity.
 Qed.
 
-(* entries without data: no list is consulted *)
-Definition empty_plan (i : Z) (e : fileent) : iplan :=
-  mkIPlan (e_name e) (if attr_is_dir (e_attr e) then 2 else if e_emptystream e then 1 else 0)
-          (-1) 0 0 None (Spec.flat_opt (e_mtime e)) (Spec.flat_opt (e_attr e)) i.
-Lemma assign_loop_all_empty multi nums sizes dd dg nf : forall files fid fo os inp fstats,
+(* entries without data: no list but the EmptyFile vector is consulted *)
+Lemma assign_loop_all_empty multi nums sizes dd dg nf : forall files efl fid fo os inp fstats,
   forallb e_emptystream files = true ->
-  assign_loop multi files fid nums sizes dd dg fo os inp fstats nf =
-  Ok (map (fun '(i, e) => empty_plan i e) (enumerate_from fid files)).
+  assign_loop multi files efl fid nums sizes dd dg fo os inp fstats nf = Ok (nostream_plans files efl fid).
 Proof.
-  induction files as [|e r IH]; intros fid fo os inp fstats H; [reflexivity|].
+  induction files as [|e r IH]; intros efl fid fo os inp fstats H; [reflexivity|].
   simpl in H. apply andb_prop in H as [He Hr]. rewrite assign_loop_cons. cbn zeta. rewrite He.
-  rewrite (IH (fid + 1) fo os inp fstats Hr). cbn [bind]. simpl enumerate_from. simpl map.
-  unfold empty_plan at 2. rewrite He. reflexivity.
+  rewrite (IH (tl efl) (fid + 1) fo os inp fstats Hr). cbn [bind nostream_plans]. unfold entry_kind. rewrite He. reflexivity.
 Qed.
 Lemma impl_plans_nostreams fl ef :
-  impl_plans (mkHeader None (Some fl) ef) = Ok (map (fun '(i, e) => empty_plan i e) (py_enumerate fl)).
+  impl_plans (mkHeader None (Some fl) ef) = Ok (nostream_plans fl ef 0).
 Proof. reflexivity. Qed.
 
 (* ================================================================== *)
@@ -492,9 +501,6 @@ Proof.
   change ((x :: l) ++ [n]) with (x :: (l ++ [n])). simpl incr_last. rewrite IH. cbn [bind].
   destruct (l ++ [n]) eqn:E; [destruct l; discriminate E|reflexivity].
 Qed.
-
-Definition new_ef (ms : list new_member) : list bool :=
-  flat_map (fun m => if e_emptystream (m_file m) then [false] else []) ms.
 
 Lemma add_members_closed pk fo : forall ms nums c sz dd dg fl ef,
   add_members (mkHeader (Some (mkStreams pk fo (Some (mkSub (nums ++ [c]) (Some sz) dd dg)))) (Some fl) ef) ms =
@@ -517,19 +523,20 @@ Qed.
 (* ================================================================== *)
 (* (1) appending extends the meaning of the base                       *)
 (* ================================================================== *)
-Lemma append_core nums sz0 dd dg files ms multi multi' ps :
+Lemma append_core nums sz0 dd dg files ef ms multi multi' ps :
+  length ef = nempty files ->
   forallb (fun n => 0 <=? n) nums = true ->
   zlen sz0 = sumZ nums -> zlen dd = sumZ nums -> zlen dg = sumZ nums -> count_data files = sumZ nums ->
   forallb member_ok ms = true ->
-  assign_loop multi files 0 nums sz0 dd dg 0 0 0 [] (zlen nums) = Ok ps ->
-  assign_loop multi' (files ++ map m_file ms) 0 (nums ++ [0 + zlen (new_sizes ms)]) (sz0 ++ new_sizes ms)
+  assign_loop multi files ef 0 nums sz0 dd dg 0 0 0 [] (zlen nums) = Ok ps ->
+  assign_loop multi' (files ++ map m_file ms) (ef ++ new_ef ms) 0 (nums ++ [0 + zlen (new_sizes ms)]) (sz0 ++ new_sizes ms)
               (dd ++ repeat true (length (new_sizes ms))) (dg ++ new_crcs ms) 0 0 0 [] (zlen nums + 1)
   = Ok (ps ++ new_plans (zlen files) (zlen nums) 0 ms).
 Proof.
-  intros Hnn Hsz Hdd Hdg Hcnt Hok Hrun.
+  intros Hef Hnn Hsz Hdd Hdg Hcnt Hok Hrun.
   rewrite (assign_loop_multi_irrel multi multi') in Hrun.
   destruct (ext_run nums sz0 dd dg [0 + zlen (new_sizes ms)] (new_sizes ms) (repeat true (length (new_sizes ms))) (new_crcs ms)
-                    Hnn Hsz files multi' 0 0 0 0 [] ps) as [fo' [inp' [fstats' [HI [HF HG]]]]].
+                    Hnn Hsz files ef multi' 0 0 0 0 [] ps Hef) as [fo' [inp' [fstats' [HI [HF HG]]]]].
   { unfold Inv. rewrite psum_0. pose proof (zlen_nonneg nums). repeat split; try lia. }
   { exact Hrun. }
   rewrite HG. clear HG. destruct HI as [Hfo [Hinp [Hos Hin]]]. rewrite Hcnt in Hos.
@@ -563,7 +570,8 @@ Proof.
   destruct ms as [|m0 r] eqn:Ems.
   { injection Hs as <-. simpl. rewrite app_nil_r. exact Hp. }
   rewrite <- Ems in *. clear Ems m0 r.
-  destruct h as [st fl ef]. unfold base_ok in Hb. cbn [h_streams h_files] in Hb.
+  destruct h as [st fl ef]. unfold base_ok in Hb. apply andb_prop in Hb as [Hef Hb].
+  unfold ef_aligned in Hef. cbn [h_streams h_files h_emptyfiles] in Hb, Hef.
   destruct st as [[pk fo sb]|].
   - cbn [si_pack si_folders si_sub] in Hb.
     destruct pk as [p|]; [|discriminate Hb]. destruct fo as [fs|]; [|discriminate Hb].
@@ -589,13 +597,13 @@ Proof.
     unfold nfiles, nfolders. cbn [h_streams h_files si_folders].
     rewrite AssignProofs.zlen_app. change (zlen [nf]) with 1.
     replace (zlen fs) with (zlen nums) in * by lia.
-    apply (append_core nums sz0 dd dg files ms (negb (zlen nums =? 1))); try assumption; lia.
+    apply (append_core nums sz0 dd dg files ef ms (negb (zlen nums =? 1))); try assumption; unfold zlen in *; lia.
   - cbn [h_streams] in *.
     set (files := match fl with Some f => f | None => [] end).
     assert (Hfe : forallb e_emptystream files = true) by (destruct fl; [exact Hb|reflexivity]).
-    assert (Hps : ps = map (fun '(i, e) => empty_plan i e) (enumerate_from 0 files)).
+    assert (Hps : ps = nostream_plans files ef 0).
     { destruct fl as [f|]; [rewrite impl_plans_nostreams in Hp; injection Hp as <-; reflexivity|].
-      simpl in Hp. injection Hp as <-. reflexivity. }
+      simpl in Hp. injection Hp as <-. destruct ef; [reflexivity|discriminate Hef]. }
     unfold initialize in Hs. cbn [h_streams h_files h_emptyfiles bind] in Hs. fold files in Hs. unfold fresh_streams in Hs.
     change [0] with ([] ++ [0]) in Hs. rewrite add_members_closed in Hs. cbn [bind] in Hs.
     unfold flush in Hs. cbn [h_streams h_files h_emptyfiles si_sub si_pack si_folders] in Hs. injection Hs as <-.
@@ -603,7 +611,8 @@ Proof.
     unfold nfiles, nfolders. cbn [h_streams h_files].
     replace (match fl with Some fl0 => zlen fl0 | None => 0 end) with (zlen files) by (destruct fl; reflexivity).
     change (zlen [nf]) with (zlen (@nil Z) + 1). 
-    apply (append_core [] [] [] [] files ms false); try reflexivity; try assumption.
+    apply (append_core [] [] [] [] files ef ms false); try reflexivity; try assumption.
+    + unfold zlen in Hef. fold files in Hef. lia.
     + rewrite (count_data_all_empty files Hfe). reflexivity.
     + rewrite Hps. apply assign_loop_all_empty. exact Hfe.
 Qed.
@@ -725,6 +734,18 @@ Qed.
 Lemma forallb_app_true {A} (f : A -> bool) a b : forallb f a = true -> forallb f b = true -> forallb f (a ++ b) = true.
 Proof. intros Ha Hb. rewrite forallb_app, Ha, Hb. reflexivity. Qed.
 
+Lemma new_ef_length ms : length (new_ef ms) = nempty (map m_file ms).
+Proof.
+  induction ms as [|m r IH]; [reflexivity|]. rewrite new_ef_cons, app_length, IH. simpl map. rewrite nempty_cons.
+  destruct (e_emptystream (m_file m)); reflexivity.
+Qed.
+Lemma ef_aligned_app st files ef ms : zlen ef = Z.of_nat (nempty files) ->
+  ef_aligned (mkHeader st (Some (files ++ map m_file ms)) (ef ++ new_ef ms)) = true.
+Proof.
+  intros H. unfold ef_aligned. cbn [h_files h_emptyfiles]. rewrite AssignProofs.zlen_app, nempty_app.
+  unfold zlen at 2. rewrite new_ef_length. lia.
+Qed.
+
 (* the graph a session leaves behind is again a base a session can start from *)
 Theorem append_session_base_ok pw h nf ms psz pcrc h' :
   base_ok h = true -> forallb member_ok ms = true ->
@@ -736,7 +757,8 @@ Proof.
   pose proof (count_data_members ms Hok) as Hcm.
   pose proof (zlen_nonneg (new_sizes ms)) as Hk.
   assert (Hcr : zlen (new_crcs ms) = zlen (new_sizes ms)) by (unfold zlen; rewrite new_crcs_length; reflexivity).
-  destruct h as [st fl ef]. unfold base_ok in Hb. cbn [h_streams h_files] in Hb.
+  destruct h as [st fl ef]. unfold base_ok in Hb. apply andb_prop in Hb as [Hef Hb].
+  unfold ef_aligned in Hef. cbn [h_streams h_files h_emptyfiles] in Hb, Hef.
   destruct st as [[pk fo sb]|].
   - cbn [si_pack si_folders si_sub] in Hb.
     destruct pk as [p|]; [|discriminate Hb]. destruct fo as [fs|]; [|discriminate Hb].
@@ -754,7 +776,8 @@ Proof.
         apply (recover_sizes_length fs nums r0); [unfold zlen in *; lia|assumption|exact Hr0]. }
     rewrite add_members_closed in Hs. cbn [bind] in Hs.
     unfold flush in Hs. cbn [h_streams h_files h_emptyfiles si_sub si_pack si_folders] in Hs. injection Hs as <-.
-    unfold base_ok. cbn [h_streams h_files si_pack si_folders si_sub s_nums s_sizes Header.s_digestsdefined Header.s_digests].
+    unfold base_ok. rewrite ef_aligned_app by lia. cbn [andb].
+    cbn [h_streams h_files si_pack si_folders si_sub s_nums s_sizes Header.s_digestsdefined Header.s_digests].
     assert (Hs1 : sumZ (nums ++ [zlen (new_sizes ms)]) = sumZ nums + zlen (new_sizes ms))
       by (rewrite AssignProofs.sumZ_app, AssignProofs.sumZ_cons, AssignProofs.sumZ_nil; lia).
     rewrite Hs1.
@@ -771,7 +794,8 @@ Proof.
     unfold initialize in Hs. cbn [h_streams h_files h_emptyfiles bind] in Hs. fold files in Hs. unfold fresh_streams in Hs.
     change [0] with ([] ++ [0]) in Hs. rewrite add_members_closed in Hs. cbn [bind] in Hs.
     unfold flush in Hs. cbn [h_streams h_files h_emptyfiles si_sub si_pack si_folders] in Hs. injection Hs as <-.
-    unfold base_ok. cbn [h_streams h_files si_pack si_folders si_sub s_nums s_sizes Header.s_digestsdefined Header.s_digests app].
+    unfold base_ok. rewrite ef_aligned_app by (fold files in Hef; lia). cbn [andb].
+    cbn [h_streams h_files si_pack si_folders si_sub s_nums s_sizes Header.s_digestsdefined Header.s_digests app].
     assert (Hs1 : sumZ [zlen (new_sizes ms)] = zlen (new_sizes ms))
       by (rewrite AssignProofs.sumZ_cons, AssignProofs.sumZ_nil; lia).
     rewrite Hs1.
@@ -869,18 +893,18 @@ Proof.
   - simpl in Hn, HL. injection HL as HL. destruct (IH dd dg Hn HL) as [g [H1 H2]]. exists g. split; assumption.
 Qed.
 
-Lemma assign_loop_norm cd ad : forall files m fid nums sizes dd dg fo os inp fst nf, length dd = length dg ->
-  assign_loop m (map (HeaderProofs.norm_file cd ad) files) fid nums sizes dd (HeaderProofs.mask_digests dg dd) fo os inp fst nf =
-  assign_loop m files fid nums sizes dd dg fo os inp fst nf.
+Lemma assign_loop_norm cd ad : forall files efl m fid nums sizes dd dg fo os inp fst nf, length dd = length dg ->
+  assign_loop m (map (HeaderProofs.norm_file cd ad) files) efl fid nums sizes dd (HeaderProofs.mask_digests dg dd) fo os inp fst nf =
+  assign_loop m files efl fid nums sizes dd dg fo os inp fst nf.
 Proof.
-  induction files as [|e r IH]; intros m fid nums sizes dd dg fo os inp fst nf HL; [reflexivity|].
+  induction files as [|e r IH]; intros efl m fid nums sizes dd dg fo os inp fst nf HL; [reflexivity|].
   change (map (HeaderProofs.norm_file cd ad) (e :: r)) with (HeaderProofs.norm_file cd ad e :: map (HeaderProofs.norm_file cd ad) r).
   rewrite !assign_loop_cons. cbn zeta.
   rewrite norm_file_attr_dir, norm_file_attr, norm_file_mtime.
   change (e_emptystream (HeaderProofs.norm_file cd ad e)) with (e_emptystream e).
   change (e_name (HeaderProofs.norm_file cd ad e)) with (e_name e).
   destruct (e_emptystream e).
-  - rewrite (IH m (fid + 1) nums sizes dd dg fo os inp fst nf HL). reflexivity.
+  - rewrite (IH (tl efl) m (fid + 1) nums sizes dd dg fo os inp fst nf HL). reflexivity.
   - destruct (_ || _); [reflexivity|].
     destruct (nthZ nums _) as [n|]; [|reflexivity]. cbn [bind].
     destruct (nthZ sizes os) as [size|]; [|reflexivity]. cbn [bind].
@@ -888,7 +912,7 @@ Proof.
     destruct (nthZ_mask dd dg os d HL Ed) as [g [Hg Hm]]. rewrite Hg, Hm. cbn [bind].
     destruct (upd_fstat _ _ _ _) as [f1 old].
     replace (if d then Some (if d then g else 0) else None) with (if d then Some g else None) by (destruct d; reflexivity).
-    destruct (n <=? inp + 1); rewrite (IH m (fid + 1) nums sizes dd dg _ _ _ f1 nf HL); reflexivity.
+    destruct (n <=? inp + 1); rewrite (IH efl m (fid + 1) nums sizes dd dg _ _ _ f1 nf HL); reflexivity.
 Qed.
 
 Lemma dflt_sizes_norm : forall fs ns, dflt_sizes (map HeaderProofs.norm_folder fs) ns = dflt_sizes fs ns.
@@ -896,13 +920,24 @@ Proof.
   induction fs as [|f fs IH]; intros [|n ns]; try reflexivity. simpl. rewrite IH. reflexivity.
 Qed.
 
-Lemma enumerate_norm cd ad : forall files i,
-  map (fun '(i, e) => empty_plan i e) (enumerate_from i (map (HeaderProofs.norm_file cd ad) files)) =
-  map (fun '(i, e) => empty_plan i e) (enumerate_from i files).
+Lemma enumerate_norm cd ad : forall files efl i,
+  nostream_plans (map (HeaderProofs.norm_file cd ad) files) efl i = nostream_plans files efl i.
 Proof.
-  induction files as [|e r IH]; intros i; [reflexivity|]. simpl. rewrite IH. f_equal.
-  unfold empty_plan. rewrite norm_file_attr_dir, norm_file_attr, norm_file_mtime. reflexivity.
+  induction files as [|e r IH]; intros efl i; [reflexivity|]. simpl map. cbn [nostream_plans].
+  change (e_emptystream (HeaderProofs.norm_file cd ad e)) with (e_emptystream e).
+  change (e_name (HeaderProofs.norm_file cd ad e)) with (e_name e).
+  rewrite IH. unfold entry_kind. rewrite norm_file_attr_dir, norm_file_attr, norm_file_mtime.
+  change (e_emptystream (HeaderProofs.norm_file cd ad e)) with (e_emptystream e). reflexivity.
 Qed.
+Lemma nempty_norm cd ad files : nempty (map (HeaderProofs.norm_file cd ad) files) = nempty files.
+Proof.
+  induction files as [|e r IH]; [reflexivity|]. simpl map. rewrite !nempty_cons, IH.
+  change (e_emptystream (HeaderProofs.norm_file cd ad e)) with (e_emptystream e). reflexivity.
+Qed.
+(* the EmptyFile vector as it is written and read back stands for the one in the graph *)
+Lemma norm_emptyfiles_pad files ef :
+  HeaderProofs.norm_emptyfiles files ef = firstn (nempty files) (ef ++ repeat false (nempty files)).
+Proof. unfold HeaderProofs.norm_emptyfiles. cbv zeta. rewrite count_true_nempty, Nat2Z.id. reflexivity. Qed.
 
 Lemma has_data_norm cd ad files :
   existsb (fun e => negb (e_emptystream e)) (map (HeaderProofs.norm_file cd ad) files) = existsb (fun e => negb (e_emptystream e)) files.
@@ -915,7 +950,8 @@ Proof.
   intros Hwf Hcan Hne. destruct h as [st fl ef]. unfold HeaderProofs.norm, HeaderProofs.norm_files. cbn [h_streams h_files h_emptyfiles].
   destruct fl as [files|]; [|reflexivity]. cbn [option_map].
   destruct st as [[pk fo sb]|].
-  2:{ cbn [option_map]. rewrite !impl_plans_nostreams. unfold py_enumerate. rewrite enumerate_norm. reflexivity. }
+  2:{ cbn [option_map]. rewrite !impl_plans_nostreams. rewrite enumerate_norm, norm_emptyfiles_pad.
+      rewrite nostream_plans_ef_pad by lia. reflexivity. }
   unfold HeaderProofs.wf_header in Hwf. cbn [h_streams h_files] in Hwf. apply andb_prop in Hwf as [Hws _].
   unfold HeaderProofs.wf_streams in Hws. cbn [si_pack si_folders] in Hws.
   unfold sizes_canonical in Hcan. unfold nums_nonempty in Hne. cbn [h_streams si_folders si_sub] in Hcan, Hne.
@@ -938,7 +974,8 @@ Proof.
       destruct (dflt_sizes fs (s_nums x)) as [l|]; [|discriminate Hcan].
       apply HeaderProofs.zlist_eqb_eq in Hcan. subst l. reflexivity. }
     rewrite Hsz. destruct (match s_sizes x with Some sz => Ok sz | None => dflt_sizes fs (s_nums x) end) as [sizes|]; [|reflexivity].
-    cbn [bind]. apply assign_loop_norm. exact HL.
+    cbn [bind]. rewrite assign_loop_norm by exact HL. rewrite norm_emptyfiles_pad.
+    apply assign_loop_ef_pad; lia.
   - discriminate Hne.
 Qed.
 
@@ -1089,11 +1126,21 @@ Proof.
   unfold HeaderProofs.mask_digests. intros dd dg H. rewrite map_length, combine_length. lia.
 Qed.
 
+(* a graph that was written and read back holds exactly one EmptyFile bit per entry without data *)
+Lemma ef_aligned_norm_canon en h : ef_aligned (HeaderProofs.norm en (canon_header h)) = true.
+Proof.
+  destruct h as [st fl ef]. unfold ef_aligned, HeaderProofs.norm, canon_header. cbn [h_streams h_files h_emptyfiles].
+  destruct fl as [files|]; [|reflexivity]. cbn [option_map]. unfold HeaderProofs.norm_files.
+  rewrite nempty_norm. unfold zlen. rewrite HeaderProofs.norm_emptyfiles_length, count_true_nempty, Nat2Z.id. lia.
+Qed.
+
 Lemma base_ok_norm_canon en h :
   base_ok h = true -> recover_all h = true -> nums_nonempty h = true ->
   base_ok (HeaderProofs.norm en (canon_header h)) = true.
 Proof.
-  intros Hb Hr Hne. destruct h as [st fl ef]. unfold base_ok, recover_all, nums_nonempty in *.
+  intros Hb Hr Hne. unfold base_ok at 1. rewrite ef_aligned_norm_canon. cbn [andb].
+  unfold base_ok in Hb. apply andb_prop in Hb as [_ Hb].
+  destruct h as [st fl ef]. unfold recover_all, nums_nonempty in *.
   unfold HeaderProofs.norm, HeaderProofs.norm_files, canon_header. cbn [h_streams h_files h_emptyfiles] in *.
   destruct st as [[pk fo sb]|]; cbn [option_map].
   - cbn [si_pack si_folders si_sub] in *. destruct pk as [p|]; [|discriminate Hb]. destruct fo as [fs|]; [|discriminate Hb].
@@ -1120,7 +1167,8 @@ Lemma install_sub_base_ok h : base_ok h = true -> install_sub h = h.
 Proof.
   destruct h as [[[pk fo sb]|] fl ef]; [|intros _; destruct fl; reflexivity].
   unfold base_ok, install_sub. cbn [h_streams h_files si_pack si_folders si_sub].
-  destruct pk as [p|], fo as [fs|], sb as [x|], fl as [files|]; intros H; try discriminate H; reflexivity.
+  destruct pk as [p|], fo as [fs|], sb as [x|], fl as [files|]; intros H; try reflexivity;
+    apply andb_prop in H as [_ H]; discriminate H.
 Qed.
 
 Theorem reopen_checked_keeps lim pw posf dflt h1 h2 :
@@ -1278,9 +1326,10 @@ Lemma base_ok_embed sh : nice sh = true -> base_ok (embed sh) = true.
 Proof.
   intros Hn. unfold nice, s_valid, nums_nonneg in Hn.
   repeat match goal with H : _ && _ = true |- _ => apply andb_prop in H; destruct H end.
-  unfold base_ok, embed, embed_sub. cbn [h_streams h_files si_pack si_folders si_sub s_nums s_sizes
+  unfold base_ok, ef_aligned, embed, embed_sub. cbn [h_streams h_files h_emptyfiles si_pack si_folders si_sub s_nums s_sizes
                                          Header.s_digestsdefined Header.s_digests].
   rewrite !AssignProofs.zlen_map. unfold count_data, is_data.
+  match goal with H : (zlen (sh_emptyfile sh) =? count_true _) = true |- _ => rewrite count_true_nempty in H end.
   repeat (apply andb_true_intro; split); try assumption; lia.
 Qed.
 
@@ -1326,9 +1375,9 @@ Proof. split; [reflexivity|]. split; [reflexivity|]. eexists. split; [vm_compute
 
 Example append_example_plans :
   exists ps h', impl_plans x_base = Ok ps /\ append_session false x_base x_newfolder x_members 12 999 = Ok h' /\
-    impl_plans h' = Ok (ps ++ [mkIPlan (Some [120]) 0 2 0 5 (Some 111) (Some 4000) (Some 32) 4;
-                               mkIPlan (Some [121]) 2 (-1) 0 0 None (Some 7) (Some 16) 5;
-                               mkIPlan (Some [122]) 0 2 5 7 (Some 222) (Some 5000) (Some 32) 6]).
+    impl_plans h' = Ok (ps ++ [mkIPlan (Some [120]) 0 2 0 5 (Some 111) (Some 4000) (Some 32) 4 false false;
+                               mkIPlan (Some [121]) 2 (-1) 0 0 None (Some 7) (Some 16) 5 true false;
+                               mkIPlan (Some [122]) 0 2 5 7 (Some 222) (Some 5000) (Some 32) 6 false false]).
 Proof.
   eexists. eexists. split; [vm_compute; reflexivity|]. split; [vm_compute; reflexivity|].
   apply (append_preserves_plans false x_base x_newfolder x_members 12 999); vm_compute; reflexivity.
